@@ -53,6 +53,19 @@ CHECKS = {
         note='Single-threaded by construction (dispatch is single-threaded in the library); matching rule as stated in the property.',
         technique='offline checker over a delivery log against an independent reference matcher (pump mode)',
         engine='pump', design='DESIGN.md §3 C07'),
+    'C04': dict(
+        level='exploration',
+        text=('1..4 user threads run generated programs of set_value / request_param_update / get_value / persistent_* / '
+              'get_default_value (plus injected value-updated notifications) against a connected real Crazyflie under the '
+              'deterministic scheduler, with reply delays up to 0.5 virtual seconds. Monitors: port-2 packets at the device, '
+              'scheduler-step stamped call/return of every operation, every update/persistent/default callback. Oracles: '
+              'reference encoding of each accepted write (all 10 types, boundary and out-of-range values), refusal without '
+              'transmission, sequence equality between value replies on the wire and callback invocations (all / group / '
+              'parameter), final cache == last device value, one-outstanding and issue-order over the wire log, exact '
+              'attribution of misc replies with several queries outstanding.'),
+        note='Sampled programs and schedules; each (misc command, parameter) pair outstanding at most once; needs_resending off.',
+        technique='offline checker over wire log + operation history + callback log (ordering, exactly-once, conservation) under a deterministic scheduler',
+        engine='detsched+simcf', design='DESIGN.md §3 C04'),
 }
 
 PENDING_REASON = ('check not built yet in this work session (design in DESIGN.md §3); nothing is claimed for it '
